@@ -287,3 +287,77 @@ def check_half_weight_symmetry(ctx, ck, rule='R-SYM.half-weights', entry='minine
                 ck.ob(rule, '%s|%s' % (g.qual, nm), True, g.loc(),
                       'per-half weights `%s`: %d stores pick a half by literal index, each for both halves' % (nm, 2 * len(groups)))
     return n_arr
+
+
+POSITION_CALLS = ('dvecs', 'matrix_dvecs', 'endseg', 'matrix_endseg')
+POSITION_ATTRS = ('point', 'ends', 'endpoints', 'p1', 'p2')
+
+
+def check_image_mirror(ctx, ck, rule='R-SYM.image-mirror', entries=('mininec.Mininec.compute_near_field',
+                                                                      'mininec.Mininec.compute_impedance_matrix',
+                                                                      'mininec.Mininec.compute_far_field')):
+    """The image of a point (x, y, z) in the ground plane is (x, y, -z): positions are multiplied by the vector
+    kvec = (1, 1, k), never by the image index k itself (which reflects through the origin).  The scalar k may
+    weight potentials and currents.  Judged in the closure of the field / fill functions: a product of the bare
+    image index (a parameter named like the loop variable over image_iter(), or that loop variable) with an
+    expression that reads positions (dvecs / endseg / point ...)."""
+    from ..rules import self_closure
+    m = ctx.model
+    funcs = {}
+    for q in entries:
+        for g in self_closure(ctx, m.func(q)):
+            funcs[g.qual] = g
+    n = 0
+    for q, g in sorted(funcs.items()):
+        knames = set()
+        for x in ast.walk(g.node):
+            if isinstance(x, ast.For) and isinstance(x.target, ast.Name) and 'image_iter' in norm(x.iter):
+                knames.add(x.target.id)
+        if 'k' in g.all_params:
+            knames.add('k')
+        if not knames:
+            continue
+        defs = {}
+        cnt = {}
+        for s in walk_no_nested(g.node):
+            if isinstance(s, ast.Assign) and len(s.targets) == 1 and isinstance(s.targets[0], ast.Name):
+                cnt[s.targets[0].id] = cnt.get(s.targets[0].id, 0) + 1
+                defs[s.targets[0].id] = s.value
+        defs = {k_: v_ for k_, v_ in defs.items() if cnt[k_] == 1}
+
+        def positional(e, depth=0):
+            # (what a function computes FROM positions - a potential - is not a position: arguments of calls are
+            # only looked into for array constructors that keep the coordinates)
+            if isinstance(e, ast.Call):
+                if isinstance(e.func, ast.Attribute) and e.func.attr in POSITION_CALLS:
+                    return True
+                d_ = dotted(e.func) or ''
+                if d_.split('.')[0] in ('np', 'numpy') and d_.split('.')[-1] in ('array', 'repeat', 'reshape', 'tile', 'copy', 'asarray', 'stack'):
+                    return any(positional(a_, depth) for a_ in e.args)
+                return False
+            if isinstance(e, ast.Attribute):
+                if e.attr in POSITION_ATTRS and isinstance(e.ctx, ast.Load):
+                    return True
+                return positional(e.value, depth) if e.attr == 'T' else False
+            if isinstance(e, ast.Name):
+                return e.id in defs and depth < 3 and e.id not in knames and positional(defs[e.id], depth + 1)
+            if isinstance(e, ast.Subscript):
+                return positional(e.value, depth)
+            if isinstance(e, ast.BinOp):
+                return positional(e.left, depth) or positional(e.right, depth)
+            if isinstance(e, ast.UnaryOp):
+                return positional(e.operand, depth)
+            if isinstance(e, (ast.Tuple, ast.List)):
+                return any(positional(x_, depth) for x_ in e.elts)
+            return False
+        for x in walk_no_nested(g.node):
+            if isinstance(x, ast.BinOp) and isinstance(x.op, ast.Mult):
+                for a, b in ((x.left, x.right), (x.right, x.left)):
+                    if isinstance(a, ast.Name) and a.id in knames:
+                        n += 1
+                        bad = positional(b)
+                        ck.ob(rule, '%s|%s' % (q, norm(x)[:60]), not bad, g.loc(x),
+                              'the image index weights a potential / current' if not bad else
+                              '`%s`: positions are multiplied by the image index itself - the image is reflected through the '
+                              'origin instead of mirrored in the ground plane (x and y change sign too)' % norm(x)[:70])
+    return n
